@@ -578,6 +578,7 @@ class Link:
         self.delays_ms = (300, 1200, 2600)
         self.pdu_count: dict[str, int] = {}
         self.hit_log: list[tuple] = []
+        self.hook = None  # scripted link policy (C13): callable(src_ent, dst_ent, emitted, key)
 
     def send(self, src_ent: Entity, em: Emitted) -> None:
         w = self.w
@@ -586,6 +587,15 @@ class Link:
         self.sent += 1
         key = ("a>b " if src_ent is w.a else "b>a ") + em.kind
         self.pdu_count[key] = self.pdu_count.get(key, 0) + 1
+        if self.hook is not None:
+            r = self.hook(src_ent, dst, em, key)
+            if r is not None:
+                # ("drop",) or ("delay", extra_ms)
+                self.fired["hook_" + r[0]] = self.fired.get("hook_" + r[0], 0) + 1
+                w.log.append(f"  link {key} {em.info} HOOK {r}")
+                if r[0] == "delay":
+                    w.push(w.clock.t + w.cfg.lat_ms + r[1], ("arr", dst, em.raw))
+                return
         if self.partition[src_ent.name]:
             self.fired["partition_drop"] += 1
             self.last_fault_t = w.clock.t
@@ -863,6 +873,9 @@ class World:
             self.ind_log.append((ent.name, i, rec.seq))
         for f in rec.faults:
             self.fault_log.append((ent.name, f, rec.seq))
+            if f[0] == "abandon" and f[1] is not None and rec.post.state == "IDLE":
+                # the user learns of an abandonment through the fault callback and records it
+                ent.closed[hk].add(f[1])
         if op == "sm" and pdu is None and not rec.emitted and not rec.inds and not rec.faults and rec.exc is None \
                 and rec.pre.key() == rec.post.key():
             self.noop_polls += 1
